@@ -444,9 +444,11 @@ def C06(ctx):
                 k = g.key(); c = g.msg(60)
                 cs = op_command_mac(k, c, l, gen="output length as a non-int integer object")
                 cs.call = (lambda k=k, c=c, lf=lf: sm.generate_command_mac(k, c, lf))
+                cs.outside = not isinstance(lf, int)      # an object that is no int at all may be refused
                 cases.append(cs)
                 cm = op_mac3(k[:8], k[8:], c, 2, l, gen="output length as a non-int integer object")
                 cm.call = (lambda k=k, c=c, lf=lf: mac.mac_iso9797_3(k[:8], k[8:], c, 2, lf))
+                cm.outside = not isinstance(lf, int)
                 cases.append(cm)
     for _ in range(ctx.n(300, 1000)):
         cases.append(op_command_mac(g.badkey(), g.msg(), None, gen="malformed", proj="class"))
